@@ -36,6 +36,12 @@ func init() {
 			{ID: "allocator.lease_remote_change", Pkg: "github.com/codelaboratoryltd/bng/pkg/allocator", File: "allocator_lease_remote_change.go",
 				Bound: "lease-mode DistributedAllocator.handleRemoteChange called as the store's watch would: grace periods {1, 2} x local epoch after 0..4 advances x announced epoch 0..local+4 x three addresses x three prior states of the subscriber (unknown / holding the announced address / holding another one), then an announced delete: 810 cases",
 				Claim: "every announced put not older than the local epoch minus the grace period (in particular every put stamped ahead of the local epoch) leaves the subscriber holding exactly the announced address, the address answering with that subscriber and never handed to a local subscriber afterwards; an announced delete leaves the subscriber without an address"},
+			{ID: "allocator.store_atomic", Pkg: "github.com/codelaboratoryltd/bng/pkg/allocator", File: "allocator_store_atomic.go",
+				Bound: "every history of up to 3 operations out of {SaveAllocation for 2 subscribers x 2 pools x 2 addresses, RemoveAllocation} on a real MemoryAllocationStore: 1884 histories, 480 refused operations",
+				Claim: "an operation that returns an error leaves every query answer (GetByPool, GetBySubscriber, GetByIP, GetPoolUtilization, ListPools, Count, JSON snapshot) as it was -- the assumption 'error => no effect' the allocator contracts make about the store; an accepted save is visible through all three indexes"},
+			{ID: "allocator.lease_restart", Pkg: "github.com/codelaboratoryltd/bng/pkg/allocator", File: "allocator_lease_restart.go",
+				Bound: "lease-mode node on a shared store: grace periods {1, 2} x 0..6 epoch ticks before allocating x optional tick-and-renew in between x 4 subscribers, then a new node loads the store with the query answering in ascending / descending / map order: 84 restarts",
+				Claim: "every record the store holds is answered by the restarted node with the recorded address (Get, GetByPrefix), no address is recorded twice, and four further allocations return none of the recorded addresses"},
 		},
 		Undecided: []string{
 			"round trip of the pool configuration (base_network string -> net.ParseCIDR -> baseIP/baseMask/step/totalPrefixes): relies on ParseCIDR(IPNet.String()) which is not modelled; only prefix_length is tracked",
